@@ -99,27 +99,47 @@ def lawCall {Y : Type} (ticks : Bool) (errFault : Err) (r : Except Err Y) : P X 
     | .ok y => pure y
     | .error e => abort e
 
+/-- the law dispatch of `AttrSparseVec::merge` -/
+def mergeVal (L : Law X) (a b : Option X) : Except Err X :=
+  match a, b with
+  | some x, some y => L.merge x y
+  | some x, none => L.mergeInc x
+  | none, some y => L.mergeInc y
+  | none, none => L.mergeNone
+
+/-- the law dispatch of `AttrSparseVec::split` -/
+def splitVal (L : Law X) (a : Option X) : Except Err (X × X) :=
+  match a with
+  | some x => L.split x
+  | none => L.splitNone
+
 /-- `AttrSparseVec::merge` on storage `s` -/
-def mergeS (cfg : Cfg X) (s out l r : Nat) : P X Unit := do
+def mergeS (cfg : Cfg X) (s out l r : Nat) : P X Unit :=
+  if l = r then do
+    -- both inputs designate the same cell: the value only moves
+    let v ← rA s l
+    wA s l none
+    wA s out v
+  else do
   let vl ← rA s l
   let vr ← rA s r
   let L := cfg.law s
-  let v ← lawCall L.ticks errFailedMerge (match vl, vr with
-    | some a, some b => L.merge a b
-    | some a, none => L.mergeInc a
-    | none, some b => L.mergeInc b
-    | none, none => L.mergeNone)
+  let v ← lawCall L.ticks errFailedMerge (mergeVal L vl vr)
   wA s r none
   wA s l none
   wA s out (some v)
 
 /-- `AttrSparseVec::split` on storage `s` -/
-def splitS (cfg : Cfg X) (s lout rout inp : Nat) : P X Unit := do
+def splitS (cfg : Cfg X) (s lout rout inp : Nat) : P X Unit :=
+  if lout = rout then do
+    -- both outputs designate the same cell: the value only moves
+    let v ← rA s inp
+    wA s inp none
+    wA s lout v
+  else do
   let v ← rA s inp
   let L := cfg.law s
-  let (a, b) ← lawCall L.ticks errFailedSplit (match v with
-    | some x => L.split x
-    | none => L.splitNone)
+  let (a, b) ← lawCall L.ticks errFailedSplit (splitVal L v)
   wA s inp none
   wA s lout (some a)
   wA s rout (some b)
